@@ -81,10 +81,10 @@ class HistSpec(Spec):
             from .engines import conc
 
             return conc.ConcRun(prop, conc.make_config(prop, seed, tier), tag=tag).run()
-        if prop == "C07" and seed % 23 == 7:
+        if (prop == "C07" and seed % 23 == 7) or (prop == "C01" and seed % 29 == 11):
             from .engines import bigsync
 
-            return bigsync.BigSyncRun(bigsync.make_config(seed, tier), tag=tag).run()
+            return bigsync.BigSyncRun(dict(bigsync.make_config(seed, tier), prop=prop), tag=tag, prop=prop).run()
         if prop == "C09" and seed % 5 == 0:
             from .engines import sched
 
@@ -112,7 +112,7 @@ class HistSpec(Spec):
         if doc.get("engine") == "bigsync":
             from .engines import bigsync
 
-            return bigsync.BigSyncRun(doc["cfg"], tag=tag).run()
+            return bigsync.BigSyncRun(doc["cfg"], tag=tag, prop=doc["cfg"].get("prop", "C07")).run()
         if doc.get("engine") == "sched":
             from .engines import sched
 
